@@ -712,7 +712,8 @@ func (m *Machine) iteValue(c *smt.Term, a, b Value) (Value, bool) {
 		for i := range x.F {
 			v, ok := m.iteValue(c, x.F[i], y.F[i])
 			if !ok {
-				return nil, false
+				// a field that cannot be merged is poisoned: it only matters if it is used later
+				v = Poison{"field that differs between the merged alternatives of a symbolic selection"}
 			}
 			n.F[i] = v
 		}
@@ -771,6 +772,16 @@ func (m *Machine) iteValue(c *smt.Term, a, b Value) (Value, bool) {
 		if ok && x.M == y.M {
 			return x, true
 		}
+	case Poison:
+		return x, true
+	case FuncVal:
+		y, ok := b.(FuncVal)
+		if ok && x.Fn == y.Fn && x.IName == y.IName && len(x.Bind) == 0 && len(y.Bind) == 0 && x.Intr == nil && y.Intr == nil {
+			return x, true
+		}
+	}
+	if _, isP := b.(Poison); isP {
+		return b, true
 	}
 	return nil, false
 }
